@@ -16,8 +16,9 @@ pub struct TransactionState {
     pub in_transaction: bool,
     /// Queued commands
     pub queued_commands: VecDeque<Vec<RespFrame>>,
-    /// Watched keys with their baseline modification counters (key -> counter when watched)
-    pub watched_keys: HashMap<Vec<u8>, u64>,
+    /// Watched keys with their baseline modification counters: (database the key was watched
+    /// in, key) -> counter when first watched
+    pub watched_keys: HashMap<(usize, Vec<u8>), u64>,
     /// Whether the transaction is aborted due to watched key changes
     pub aborted: bool,
 }
@@ -56,8 +57,8 @@ pub fn handle_exec(
     }
     
     // Check watched keys
-    for (key, baseline_counter) in &conn.transaction_state.watched_keys {
-        if storage.was_modified_since(conn.db_index, key, *baseline_counter)? {
+    for ((db, key), baseline_counter) in &conn.transaction_state.watched_keys {
+        if storage.was_modified_since(*db, key, *baseline_counter)? {
             conn.transaction_state.watched_keys.clear();
             return Ok(RespFrame::null_array());
         }
@@ -108,29 +109,27 @@ pub fn handle_watch(conn: &mut Connection, parts: &[RespFrame], storage: &Arc<St
     }
     
     // Add keys to watch set with current modification counters
+    let db = conn.db_index;
     for i in 1..parts.len() {
         match &parts[i] {
             RespFrame::BulkString(Some(bytes)) => {
                 let key = bytes.as_ref().clone();
                 
-                // Register the watch with storage engine
-                match storage.register_watch(conn.db_index, &key) {
-                    Ok(baseline_counter) => {
-                        // Store the baseline counter for violation detection
-                        conn.transaction_state.watched_keys.insert(key, baseline_counter);
-                    }
-                    Err(_) => {
-                        // If we can't register, use fallback counter
-                        match storage.get_modification_counter(conn.db_index, &key) {
-                            Ok(baseline_counter) => {
-                                conn.transaction_state.watched_keys.insert(key, baseline_counter);
-                            }
-                            Err(_) => {
-                                conn.transaction_state.watched_keys.insert(key, 0);
-                            }
-                        }
-                    }
+                // A key that is already watched keeps its first baseline (and its one
+                // registration): what happened since the first WATCH still counts
+                if conn.transaction_state.watched_keys.contains_key(&(db, key.clone())) {
+                    continue;
                 }
+                
+                // Register the watch with storage engine
+                let baseline_counter = match storage.register_watch(db, &key) {
+                    Ok(baseline_counter) => baseline_counter,
+                    // If we can't register, use fallback counter
+                    Err(_) => storage.get_modification_counter(db, &key).unwrap_or(0),
+                };
+                
+                // Store the baseline counter for violation detection
+                conn.transaction_state.watched_keys.insert((db, key), baseline_counter);
             }
             _ => {} // refused above
         }
@@ -142,8 +141,8 @@ pub fn handle_watch(conn: &mut Connection, parts: &[RespFrame], storage: &Arc<St
 /// Handle UNWATCH command - Unwatch all keys
 pub fn handle_unwatch(conn: &mut Connection, storage: &Arc<StorageEngine>) -> Result<RespFrame> {
     // Unregister all watches
-    for key in conn.transaction_state.watched_keys.keys() {
-        let _ = storage.unregister_watch(conn.db_index, key);
+    for (db, key) in conn.transaction_state.watched_keys.keys() {
+        let _ = storage.unregister_watch(*db, key);
     }
     
     conn.transaction_state.watched_keys.clear();
